@@ -524,7 +524,9 @@ impl<P: Protocol> NetSim<P> {
         let claims: Vec<String> = claims.iter().map(|(p, r, _)| format!("{}>{}", r, p)).collect();
         let cache: Vec<String> = cache.iter().map(|(a, p, _)| format!("{}>{}", a, p)).collect();
         let own = n.node.verif_own_addresses();
-        format!("peers={:?} pending={:?} claims={:?} cache={:?} own={:?}", peers, pending, claims, cache, own)
+        // expiry time, advertised timeout and announced addresses of every peer: only authenticated messages may move them
+        let expiry: Vec<String> = n.node.verif_peers().iter().map(|p| format!("{}@{}/{}/{:?}", p.addr, p.timeout, p.peer_timeout, p.addrs)).collect();
+        format!("peers={:?} expiry={:?} pending={:?} claims={:?} cache={:?} own={:?}", peers, expiry, pending, claims, cache, own)
     }
 }
 
